@@ -1,7 +1,6 @@
 package main
 
 import (
-	"time"
 	"flag"
 	"fmt"
 	"os"
@@ -10,6 +9,7 @@ import (
 	"sort"
 	"strconv"
 	"strings"
+	"time"
 )
 
 type ruleFunc func(p *Program, r *Report)
